@@ -36,6 +36,12 @@ ASSUMPTIONS = ["the plist crate reads the harness-written fontinfo.plist text as
 CODES = {1: "model differs from implementation at FontInfo::validate",
          2: "model differs from implementation at Font::save",
          3: "model differs from implementation at Font::load",
+         4: "model differs from implementation at Font::load of a format-2 UFO",
+         5: "model differs from implementation at Font::load of a format-1 UFO (lib.plist hint data)",
+         16: "Font::load (format 2) verdict differs from the specification",
+         17: "Font::load (format 1 lib data) verdict differs from the specification",
+         18: "the font loaded from format 2 holds an info that violates the specification",
+         19: "the font loaded from format 1 holds an info that violates the specification",
          11: "FontInfo::validate verdict differs from the specification",
          12: "Font::save verdict differs from the specification",
          13: "Font::load verdict differs from the specification",
@@ -245,7 +251,9 @@ def run(ctx, known, built):
     from driver import sh, coq_values, parse_term
     out = os.path.join(ctx.scratch, "c13")
     os.makedirs(out)
-    rc, o = sh([ctx.harness, "c13", "--tier", ctx.tier, "--seed", str(ctx.seed), "--out", out], timeout=3000)
+    from driver import VERIF
+    rc, o = sh([ctx.harness, "c13", "--tier", ctx.tier, "--seed", str(ctx.seed), "--out", out,
+                "corpus=" + os.path.join(VERIF, "corpus", "C13")], timeout=3000)
     if rc != 0:
         ctx.disagreements.append({"what": "harness c13 failed", "output": o[-2000:]})
         return
@@ -282,7 +290,8 @@ def run(ctx, known, built):
         for (idx, codes) in bad:
             m = meta[k * summ["shard_size"] + idx]
             entry = {"label": m["label"], "case": m["case"], "implementation": {"validate": m["validate"],
-                     "save": m["save"], "load": m["load"]}, "failed": [CODES.get(c, str(c)) for c in codes]}
+                     "save": m["save"], "load": m["load"], "load_format2": m["load_format2"],
+                     "load_format1_lib": m["load_format1_lib"]}, "failed": [CODES.get(c, str(c)) for c in codes]}
             if any(c < 10 for c in codes):
                 ctx.disagreements.append(dict(entry, what="model and implementation differ"))
             if any(c >= 10 for c in codes):
@@ -290,12 +299,17 @@ def run(ctx, known, built):
                 # implementation's verdict must equal fi_specb: this input violates the property itself
                 ctx.violations.append(dict(entry, demand="accepted at every entry point iff the font info satisfies "
                                                          "the specification's rules; a loaded/saved info satisfies them"))
-    ctx.violations.sort(key=lambda v: len(json.dumps(v["case"])))
+    def size(v):
+        c = v["case"]
+        return (sum(1 for x in c.values() if x not in (None, [], False)) + sum(1 for x in c["lists"] if x is not None)
+                + sum(1 for x in c["wsimple"] if x is not None), len(json.dumps(c)))
+    ctx.violations.sort(key=size)
+    ctx.disagreements.sort(key=lambda v: size(v) if "case" in v else (0, 0))
     ctx.obligation("correspondence:C13 (%d shards)" % len(files), ok_shards == len(files) and not ctx.disagreements,
                    "model and implementation differ")
     total = summ["cases"]
     ctx.cov.update({
-        "evaluations": 3 * total - 2 * not_repr,
+        "evaluations": total + 2 * summ["with_in_memory_value"] + summ["through_format2_loader"] + summ["through_format1_lib_loader"],
         "distinct_nontrivial": total - 1,
         "rule": "cases = rule-relevant contents of a fontinfo.plist; each is run through FontInfo::validate and Font::save "
                 "(when the Rust types admit an in-memory value) and through Font::load of a harness-written file, and "
@@ -314,8 +328,11 @@ def run(ctx, known, built):
         "input_distribution": {"cases": total, "boundary_exhaustive": summ["boundary_exhaustive_cases"],
                                "random": summ["random_cases"], "satisfy_fi_spec": spec_ok, "violate_fi_spec": spec_bad,
                                "no_in_memory_value(load only)": not_repr,
+                               "also_through_format2_loader": summ["through_format2_loader"],
+                               "also_through_format1_lib_loader": summ["through_format1_lib_loader"],
                                "outcomes(validate kind / load class)": summ["outcome_histogram"]},
-        "traces_validated_against_impl": 3 * total - 2 * not_repr,
+        "traces_validated_against_impl": total + 2 * summ["with_in_memory_value"] + summ["through_format2_loader"]
+                                         + summ["through_format1_lib_loader"],
     })
     for i in (1, 40, 700, len(meta) - 1):
         if i < len(meta):
